@@ -20,7 +20,7 @@ func TestC06(t *testing.T) {
 	defer col.Flush()
 	rc := fullRuleCfg()
 	rc.Forget = false
-	cfg := rsGenCfg{Rules: rc, Vary: true, MaxCycle: func(rt *rapid.T) uint64 { return 40 }}
+	cfg := rsGenCfg{Rules: rc, Vary: true, GRB: true, MaxCycle: func(rt *rapid.T) uint64 { return 40 }}
 	check(t, 0, budget(4000, 60000), func(rt *rapid.T) {
 		c, rs := genRSCase(rt, cfg)
 		maybeFailingConditions(rt, c, rs)
